@@ -273,7 +273,7 @@ func (w *c19World) newSched(c *Ctx, measure bool) *msched {
 func (w *c19World) exec(s *msched, task, i int) {
 	op := w.p.Tasks[task].Ops[i]
 	t := s.tasks[task]
-	body := func() { s.yield("seam:body", "seam") } // the consumer's loop body: a schedule point while the traversal is suspended
+	body := func() { clockTick("the next yield (a slow consumer)"); s.yield("seam:body", "seam") } // the consumer's loop body: a schedule point while the traversal is suspended
 	if op.Kind == "cfg" {
 		bad := plantAll(*op.Cfg, op.Planted)
 		cc := bad.Config()
